@@ -202,6 +202,7 @@ def main(pid, rep=None, finish=True):
         rep.set("replayed_per_action", per_action)
         # ---- B2: random grammar streams -----------------------------------------------------------------------------
         b2(pid, rep, rnd, own, 3000 if thorough else 500, d)
+        decode_cost(pid, rep, rnd, own, thorough)
         b2_traces(pid, rep, rnd, own, 2000 if thorough else 400)
         b2_traces(pid, rep, rnd, own, 600 if thorough else 150, overlap=True)
         rep.assume("create_connection is served by a fake transport obeying the asyncio contract; TLS itself is exercised by the live checks")
@@ -217,10 +218,61 @@ def main(pid, rep=None, finish=True):
 
 
 CODECS = ["utf-8", "ascii", "latin-1", "iso-8859-1", "iso-8859-15", "cp1252", "utf-16", "utf-16-le", "utf-32", "utf-7", "big5", "gbk",
-          "shift_jis", "euc-jp", "koi8-r", "cp437", "mac-roman", "utf-8-sig", "idna", "punycode", "hex", "base64", "rot13",
+          "shift_jis", "euc-jp", "koi8-r", "cp437", "mac-roman", "utf-8-sig", "hex", "base64", "rot13",
           "zlib", "bz2", "unicode_escape", "raw_unicode_escape", "undefined", "mbcs", "oem", "klingon", "x-unknown", "utf8mb4", "",
           "a\x00b", "uu", "quopri", "charmap", "cp65001", "big5hkscs", "x" * 300,
           "UTF-8", " utf-8 ", "'utf-8'"]
+
+
+def decode_cost(pid, rep, rnd, own, thorough):
+    """PromptOnClose for bodies of realistic size: the ClientConn model makes `Deliver` one step that is always enabled once the
+    peer has ended - the client decodes a text body on the event loop in that step, so the step's processor time is time
+    in which no timeout can fire and nothing else runs.  For every charset label Python knows (canonical names and aliases)
+    a 256 KiB body is delivered to the real protocol object and the processor time of the closing step is measured;
+    a decoder is charged with its cost at the 10 MiB cap assuming no worse than linear growth (x40), and a closing step
+    that would hold the loop longer than the client's whole timeout is not prompt.  (Processor time, not wall time: the
+    figure does not depend on what else the machine is doing.  Ordinary decoders need well under a millisecond here.)"""
+    if "PromptOnClose" not in own:
+        return
+    import encodings.aliases
+    import time
+    labels = sorted(set(encodings.aliases.aliases.values()) | set(encodings.aliases.aliases.keys()) | {"idna", "punycode", "utf-8", "utf_8_sig"})
+    if not thorough:
+        canon = sorted(set(encodings.aliases.aliases.values()) | {"idna", "punycode", "utf-8"})
+        labels = canon + rnd.sample(sorted(set(labels) - set(canon)), 40)
+    n = 128 * 1024
+    shapes = {"dash": b"a" * n + b"-" + b"a" * n, "dots": b"xn--a.a." * (n // 4), "bytes": bytes(rnd.getrandbits(8) for _ in range(4096)) * (n // 2048)}
+    BOUND = 0.25        # s of processor time at 256 KiB  ->  10 s at the cap
+    worst = (0.0, None)
+    cases = 0
+    for label in labels:
+        for ep in ("get", "upload"):
+            for shape, body in shapes.items():
+                if shape != "dash" and not thorough and ep == "upload":
+                    continue
+                header = ("20 text/plain; charset=%s" % label).encode()
+                scr = script("cost-%s-%s" % (label, shape), header, True, "ok", 20, True, "known", body, True, "fin")
+                h = ClientHarness(scr, "off", ep=ep, seed=0)
+                try:
+                    h.do("Rx", len(scr["data"]))
+                    t0 = time.process_time()
+                    h.do("PeerEnds")
+                    h.do("Deliver")
+                    dt = time.process_time() - t0
+                    cases += 1
+                    if dt > worst[0]:
+                        worst = (dt, label)
+                    if dt > BOUND:
+                        rep.violation({"formula": "PromptOnClose", "decode": True, "label": label, "ep": ep},
+                                      "['PromptOnClose'] falsified: the closing step of a %s whose 2x response declares charset=%s held the "
+                                      "event loop for %.2fs of processor time on a %d-byte body (%s): at the 10 MiB cap that is at least %.0fs "
+                                      "during which no timeout fires and nothing else runs; the call ended %s"
+                                      % (ep, label, dt, len(body), shape, dt * 40, h.outcome()), {"label": label, "ep": ep, "shape": shape, "seconds": dt})
+                        break           # (one report per label and entry point)
+                finally:
+                    h.close()
+    rep.add("decode_cost_cases", cases)
+    rep.set("decode_cost_worst", {"seconds_at_256KiB": round(worst[0], 4), "label": worst[1]})
 
 
 def random_script(rnd, k):
@@ -367,6 +419,14 @@ def classified_script(rnd, k):
                     break
         data = (header + (b"\r\n" if crlf else b"") + body)[:send_len]
         delivered = data[len(header) + 2:] if crlf else b""
+        if not delivered:
+            try:
+                import codecs
+                codecs.lookup(label)
+            except (LookupError, ValueError):
+                # nothing to decode under a label that names no codec: bytes.decode() never looks the label up for b"",
+                # a client that checks the label first reports it - either is in order, the case decides nothing
+                return classified_script(rnd, k)
         try:
             import warnings
             with warnings.catch_warnings():
